@@ -1297,9 +1297,12 @@ pub fn choking(seed: u64) -> Plan {
     let g = simple_geometry(piece_len, n_p * piece_len - r.range(0, piece_len - 1));
     let n = g.pieces();
     let mut p = base_plan("choking", seed, g);
-    let listed = r.range(8, 16) as usize;
-    let dialin = r.range(0, 6) as usize;
-    let tied = r.chance(1, 3);
+    // long crowd: more than eleven peers, all interested from the start and for good, differing
+    // rates, long enough for two optimistic draws (30 s and 60 s)
+    let crowd = r.chance(1, 3);
+    let listed = if crowd { r.range(11, 14) } else { r.range(8, 16) } as usize;
+    let dialin = if crowd { r.range(2, 5) } else { r.range(0, 6) } as usize;
+    let tied = !crowd && r.chance(1, 3);
     for j in 0..listed + dialin {
         let mut peer = base_peer(j, n);
         peer.essential = false;
@@ -1318,7 +1321,25 @@ pub fn choking(seed: u64) -> Plan {
         peer.keepalive = Some(60_000);
         if j >= listed {
             peer.listed = false;
-            peer.dial_in = vec![r.range(0, 20_000)];
+            peer.dial_in = vec![if crowd { r.range(50, 3000) } else { r.range(0, 20_000) }];
+        }
+        if crowd {
+            // partial seeds stay interesting to the client (it accepts incoming connections only
+            // while fewer than four of its peers are uninteresting)
+            if !seeder {
+                peer.has = (0..n).map(|_| r.chance(1, 2)).collect();
+            }
+            peer.script.push(step(When::At(0), Act::Send(Msg::Interested)));
+            let period = *r.pick(&[400u64, 900, 1700, 3100, 5300]);
+            for q in 0..(95_000 / period) {
+                peer.script.push(step(When::At(2000 + q * period), Act::RequestOwned(1)));
+            }
+            p.peers.push(peer);
+            continue;
+        }
+        // a bitfield sent again later (the client accepts it at any time)
+        if r.chance(1, 6) {
+            peer.script.push(step(When::At(r.range(1_000, 60_000)), Act::Send(Msg::Bitfield(crate::codec::bitfield_bytes(&peer.has)))));
         }
         // interest toggling and requests
         // most peers declare interest right after the handshake: a peer that is not interested
@@ -1347,7 +1368,7 @@ pub fn choking(seed: u64) -> Plan {
     let mut names: Vec<String> = p.peers.iter().filter(|x| x.listed).map(|x| x.name.clone()).collect();
     r.shuffle(&mut names);
     p.tracker.steps.push((1, TrackerStep::Good { peers: names, malformed: 0, wrong_id_for: vec![] }));
-    p.deadline_ms = r.range(31_000, 91_000);
+    p.deadline_ms = if crowd { r.range(61_000, 95_000) } else { r.range(31_000, 91_000) };
     p.stop_on_done = false;
     p
 }
@@ -1391,7 +1412,13 @@ pub fn tracker_faults(seed: u64) -> Plan {
                 TrackerStep::Garbage(r.bytes(l))
             }
             4 => TrackerStep::Garbage(b"d8:intervali1800e5:peersld2:ip9:10.0.0.1".to_vec()),
-            5 => TrackerStep::Failure("torrent not registered".into()),
+            5 => {
+                if r.chance(1, 2) {
+                    TrackerStep::Failure("torrent not registered".into())
+                } else {
+                    TrackerStep::FailureWithPeers("overloaded, retry later".into())
+                }
+            }
             6 => TrackerStep::NoPeers,
             _ => TrackerStep::Garbage(b"le".to_vec()),
         };
